@@ -150,6 +150,35 @@ def main():
     good = any(w.startswith("differs") for _, w in got)
     ok = ok and good
     rows.append(("digest of one concurrent call altered", "TraceConc", "accepted", "rejected: %s" % got[0][1] if got else "NOT NOTICED", "ok" if good else "FAIL"))
+    # encoder-model conformance: one recorded output element of each real encoder stage altered
+    encs = []
+    for fam, args in (("pdf", ["-sym", "pdf", "-alphabet", "65,97,49,59", "-maxlen", "2"]), ("aztec", ["-sym", "aztec", "-alphabet", "65,97,49,33", "-maxlen", "2"]),
+                      ("c128", ["-sym", "c128", "-alphabet", "49,65,97,1", "-maxlen", "2"]), ("dm", ["-sym", "dm", "-alphabet", "53,65,200", "-maxlen", "2", "-pad", "3"]),
+                      ("qr", ["-sym", "qr", "-alphabet", "49,65,97", "-maxlen", "1"]), ("pdf", ["-sym", "pdfdims"])):
+        b = vlib.build_harness(work, tags="verif verifenc enc_" + fam, cmd="encdump", suffix="-" + fam)
+        out = os.path.join(work, "enc.ndjson")
+        subprocess.run([b, "-out", out] + args, check=True, capture_output=True)
+        evs = vlib.read_ndjson(out)
+        if args[1] == "pdfdims":
+            evs = evs[100:140]
+            def cc(c):
+                c[7]["rows"] += 1
+                return 8
+            case("rows chosen by calcDimensions altered", "TraceEnc", evs, cc)
+            continue
+        k = next(i for i, e in enumerate(evs) if e["ok"] and len(e["out"]) >= 2 and i > 3)
+        def cc(c, k=k, fam=fam):
+            c[k]["out"][-1] = (c[k]["out"][-1] + 1) % (2 if fam in ("aztec", "qr") else 90)
+            return k + 1
+        case("last element of one recorded %s encoder output altered" % fam, "TraceEnc", evs[:40] if fam != "qr" else evs[:48], cc) if k < 40 else None
+    b = vlib.build_harness(work, tags="verif verifenc enc_aztec", cmd="encdump", suffix="-aztec")
+    vlib.write_ndjson(os.path.join(work, "azin"), [dict(content=list(b"HELLO AZTEC 123"), pct=33), dict(content=list(b"x" * 60), pct=23)])
+    subprocess.run([b, "-sym", "azsel", "-in", os.path.join(work, "azin"), "-out", os.path.join(work, "azout")], check=True, capture_output=True)
+    evs = vlib.read_ndjson(os.path.join(work, "azout"))
+    def cs(c):
+        c[0]["w"] += 4
+        return 1
+    case("size chosen by aztec.Encode altered", "TraceEnc", evs, cs)
     print("| corruption | trace spec | recorded trace | corrupted trace | |")
     print("|---|---|---|---|---|")
     for r in rows:
